@@ -32,6 +32,7 @@ DET = {
  'C14-3': ('C14', 'same_result_for_renamed_labels on participation_coef'), 'C15-3': ('C15', 'coreness_is_largest_k_whose_core_contains_node on kcoreness_centrality_bu/n3'),
  'C17-3': ('C17', 'keeps_exactly_offdiag_entries_not_below_thr on threshold_absolute'), 'C20-3': ('C20', 'empty_diagonal on makeevenCIJ/n4/sz1'),
  'C05-3': ('C05', 'global_stream_untouched_when_seeded on makerandCIJdegreesfixed (found symbolically at once; the real-code replay first used the single seed 7 and did not reproduce -> replay now runs the scripted path and searches 17 integer seeds)'),
+ 'C07-3': ('C07', 'not_worse_than_start on modularity_finetune_und/p5w/start11455 (check extended after this seed was first missed: weighted 5-node graphs started from partitions whose labels differ from node indices)'),
  'C09-3': ('C09', 'zero_when_fewer_than_two_neighbours on clustering_coef_wd/n3'), 'C11-3': ('C11', 'lattice_cost_not_increased on latmio_und with symbolic weights'),
  'C16-3': ('C16', 'agrees_with_reachdist_distance (check extended after this seed was first missed: the distance matrix of reachdist is now compared, not only its reach flags)'),
  'C19-3': ('C19', 'null_is_largest_component_under_relabelling on the 2+3 stack'),
